@@ -8,7 +8,7 @@ import subprocess
 import time
 
 from rustlex import (ExtractError, lex, find_item, match_close, parse_duplicate_table,
-                     substitute_idents, expand_match_any)
+                     substitute_idents, expand_match_any, find_semi_item)
 
 REPO = os.environ.get("VERIF_REPO", "/repo")
 VERIF = os.path.dirname(os.path.dirname(os.path.abspath(__file__)))
@@ -120,12 +120,16 @@ def extract_fn(unit):
 def extract_type(spec):
     """verbatim enum/struct item with attributes stripped"""
     src = read_src(spec["src"])
-    loc = find_item(src, spec["path"])
-    raw = src[loc["start"]:loc["end"]]
+    if spec.get("semi"):
+        raw = find_semi_item(src, *spec["semi"])
+    else:
+        loc = find_item(src, spec["path"])
+        raw = src[loc["start"]:loc["end"]]
     text, dropped = strip_attrs(raw)
     for old, new in spec.get("rewrites", []):
         text = text.replace(old, new)
-    # tuple structs end with ';' after the paren group – find_item only handles brace bodies
+    if spec.get("post"):
+        text += "\n" + spec["post"]
     return text, hashlib.sha256(raw.encode()).hexdigest(), dropped
 
 
